@@ -309,4 +309,76 @@ def build():
              Clause('K4_other_http1_requests_are_400_and_never_reach_the_service',
                     '!' + WEB + ' && req.version != Version::HTTP_2 ==> ' + NONE + ' && (r.case matches Case::ImmediateResponse { res: Some(p) } && p.status == StatusCode::BAD_REQUEST)'),
          ])
+
+    # ---- client.rs: the grpc-web CLIENT layer (C17: what the transport is handed, what the caller gets back) ----
+    CL = 'tonic-web/src/client.rs'
+    u._emit('impl<B> GrpcWebCall<B> {'); u._open_header = 'impl<B> GrpcWebCall<B> {'
+    u.fn(C, 'new_client', within='impl<B> GrpcWebCall<B>', props=['C17'], ensures=[Clause('G3_client_side_adapter', 'adapter(r, inner, direction, encoding, true)')])
+    u.fn(C, 'client_request', within='impl<B> GrpcWebCall<B>', props=['C17'], ensures=[Clause('G4_client_request_bodies_pass_through_the_encoder_in_binary_mode', 'adapter(r, inner, Direction::Encode, Encoding::None, true)')])
+    u.fn(C, 'client_response', within='impl<B> GrpcWebCall<B>', props=['C17'], ensures=[Clause('G5_client_response_bodies_are_decoded_in_binary_mode', 'adapter(r, inner, Direction::Decode, Encoding::None, true)')])
+    u.close('}')
+    u.raw('''
+// A-http-17 (R17): <HeaderValue as TryFrom<&str>>::try_from is Ok exactly for visible ASCII text and keeps it
+pub open spec fn visible_text(s: Seq<char>) -> bool { forall|i: int| 0 <= i < s.len() ==> 32 <= (#[trigger] s[i]) as u32 && (s[i] as u32) < 127 }
+#[verifier::external_body]
+pub fn verif_header_value_try_from(s: &str) -> (r: Result<HeaderValue, InvalidHeaderValue>)
+    ensures r is Ok <==> visible_text(s@), r matches Ok(v) ==> v@ == ascii_bytes(s@)
+{ unimplemented!() }
+pub proof fn lemma_grpc_web_is_visible_text()
+    ensures visible_text("application/grpc-web"@)
+{
+    reveal_strlit("application/grpc-web");
+    let s = "application/grpc-web"@;
+    assert(s =~= seq!['a', 'p', 'p', 'l', 'i', 'c', 'a', 't', 'i', 'o', 'n', '/', 'g', 'r', 'p', 'c', '-', 'w', 'e', 'b']);
+}
+pub open spec fn client_request_image<B>(q: Request<GrpcWebCall<B>>, req: Request<B>) -> bool {
+    &&& q.method == req.method && q.uri == req.uri && q.extensions == req.extensions
+    &&& q.version == (if req.version == Version::HTTP_2 { Version::HTTP_11 } else { req.version })
+    &&& q.headers@ == req.headers@.insert("content-type"@, seq![ascii_bytes("application/grpc-web"@)])
+    &&& adapter(q.body, req.body, Direction::Encode, Encoding::None, true)
+}
+pub mod client {
+    use crate::*;
+    pub trait HttpFuture<B, E> {
+        spec fn resolves(&self, x: Result<Response<B>, E>) -> bool;
+        fn poll(&mut self, cx: &mut Context) -> (r: Poll<Result<Response<B>, E>>) ensures r matches Poll::Ready(x) ==> old(self).resolves(x);
+    }
+    pub struct PinMutF<'a, F> { pub p: &'a mut F }
+    impl<'a, F> PinMutF<'a, F> {
+        pub fn poll<B, E>(self, cx: &mut Context) -> (r: Poll<Result<Response<B>, E>>) where F: HttpFuture<B, E>
+            ensures r matches Poll::Ready(x) ==> old(self.p).resolves(x)
+        { self.p.poll(cx) }
+    }
+    pub struct ResponseFutureProj<'a, F> { pub inner: PinMutF<'a, F> }
+''')
+    u.item(CL, 'struct', 'GrpcWebClientService')
+    u.item(CL, 'struct', 'ResponseFuture')
+    u.raw('''    impl<F> ResponseFuture<F> {
+        // A-pinproject-08: pin-project projection of the client ResponseFuture
+        #[verifier::external_body]
+        pub fn project(&mut self) -> (r: ResponseFutureProj<'_, F>) ensures *r.inner.p == old(self).inner, *final(r.inner.p) == final(self).inner { unimplemented!() }
+    }
+''')
+    u.fn(CL, 'call', within='impl<S, B1, B2> Service<Request<B1>> for GrpcWebClientService<S>', header='impl<S> GrpcWebClientService<S> {', close=True, props=['C17'],
+         display='client::GrpcWebClientService::call',
+         sig_edits=[lambda t: t.sub_code('R9', r'Self::Future', 'ResponseFuture<S::Future>'),
+                    lambda t: t.sub_code('R12', r'fn call\(', 'fn call<B1>('),
+                    lambda t: t.edit('R12', len(t.t.rstrip()), len(t.t.rstrip()), ' where S: Service<Request<GrpcWebCall<B1>>>')],
+         body_edits=[lambda t: t.sub_code('R17', r'GRPC_WEB\.try_into\(\)', 'verif_header_value_try_from(GRPC_WEB)')],
+         body_start='        proof { lemma_grpc_web_is_visible_text(); }',
+         ensures=[Clause('CW1_the_transport_gets_an_http1_grpc_web_request_around_the_encoding_adapter',
+                         'final(self).inner.log().len() == old(self).inner.log().len() + 1 && final(self).inner.log().drop_last() == old(self).inner.log() && client_request_image(final(self).inner.log().last(), req)')])
+    u.fn(CL, 'poll', within='impl<F, B, E> Future for ResponseFuture<F>', header='impl<F> ResponseFuture<F> {', close=True, props=['C17'],
+         display='client::ResponseFuture::poll',
+         sig_edits=[lambda t: t.sub_code('R9', r'Self::Output', 'Result<Response<GrpcWebCall<B>>, E>'),
+                    lambda t: t.sub_code('R12', r'fn poll\(', 'fn poll<B, E>('),
+                    lambda t: t.edit('R12', len(t.t.rstrip()), len(t.t.rstrip()), ' where F: HttpFuture<B, E>')],
+         closures={0: dict(params='r: Response<B>', ret='(o: Response<GrpcWebCall<B>>)',
+                           ensures=['o.status == r.status && o.version == r.version && o.headers == r.headers && o.extensions == r.extensions && adapter(o.body, r.body, Direction::Decode, Encoding::None, true)'])},
+         ensures=[Clause('CW2_the_caller_gets_the_transport_response_around_the_decoding_adapter',
+                         '''match r { Poll::Ready(Ok(out)) => exists|res: Response<B>| #[trigger] old(self).inner.resolves(Ok(res)) && out.status == res.status && out.version == res.version
+                                    && out.headers == res.headers && out.extensions == res.extensions && adapter(out.body, res.body, Direction::Decode, Encoding::None, true),
+                                Poll::Ready(Err(e)) => old(self).inner.resolves(Err(e)),
+                                Poll::Pending => true }''')])
+    u._emit('} // mod client')
     return u
